@@ -269,7 +269,8 @@ func FreePathNode(p *PathNode) {
 func guardPathNodeSlice(con *[]PathNode, l int) {
 	c := cap(*con) // Get the current capacity of the slice
 	if l >= c {
-		tmp := make([]PathNode, len(*con), l+DefaultNodeSliceCap) // Create a new slice 'tmp'
+		// NOTICE: grow geometrically, a constant increment copies the children quadratically often
+		tmp := make([]PathNode, len(*con), l+l/2+DefaultNodeSliceCap) // Create a new slice 'tmp'
 		copy(tmp, *con)                                           // Copy elements from the original slice to the new slice 'tmp'
 		*con = tmp                                                // Update the reference of the original slice to point to the new slice 'tmp'
 	}
